@@ -460,6 +460,10 @@ def scenarios(tier, seed, routine=None):
     if routine in PREFILLED:
         # a buffer that already holds 6 rows is handed to a run that starts at step 0 with a warm-up of 5 steps
         scs.append(dict(base, label="P", script=[(3, "term"), (2, "trunc"), (4, "term")], budget=16, start=0, eplimit=0, warm=5, prefill=6))
+    if routine == "active_mt":
+        # many short episodes: the task selector leaves its initial rounds (3 baseline + 2 x 3 counted rounds) and makes
+        # more than ten choices that depend on the D-UCB hyper-parameters of this call
+        scs.append(dict(base, label="M", script=[(1, "term"), (2, "trunc"), (1, "both"), (1, "term")], budget=30, start=0, eplimit=0, warm=4))
     if routine in PARTIAL_TARGETS:
         scs.append(dict(base, label="T", script=[(3, "term"), (2, "trunc"), (4, "term")], budget=15, start=4, eplimit=0, warm=3,
                         given_targets="q" if routine != "td3_lap" else "policy"))
